@@ -19,13 +19,13 @@ ASSUMPTIONS = [
     "floating-point cumulative sums are compared with the exact value within 8*n*eps*total",
     "a percentile target within 8*n ulp of an exact partial sum may resolve to either neighbouring cell count (rounding band)",
 ]
-MIN_NONTRIVIAL = {"quick": 150, "thorough": 2000}
-TIMEOUT = {"quick": 600, "thorough": 1800}
+MIN_NONTRIVIAL = {"quick": 150, "thorough": 6400}
+TIMEOUT = {"quick": 600, "thorough": 7000}
 EPS = 2.0**-52
 
 
 def cases(tier, seed):
-    n = 240 if tier == "quick" else 3200
+    n = 240 if tier == "quick" else 12800
     out_ = [{"seed": seed, "idx": i} for i in range(n)]
     if tier == "thorough":
         out_.append({"seed": seed, "kind": "repo_tests", "_cost": 40})
